@@ -1635,10 +1635,20 @@ impl Fsm {
                             //    it receives from that session. In particular it MUST NOT not insert them
                             //    into the external event queue of the invoking session.
                             // Check if the session is active.
-                            if get_global!(datamodel)
-                                .child_sessions
-                                .contains_key(invoke_id)
-                            {
+                            // A re-entered invoke may reuse the invoke id: the event must come from the session
+                            // that runs now, not from the cancelled one (the origin names the sending session).
+                            let from_running_child = match get_global!(datamodel).child_sessions.get(invoke_id) {
+                                Some(session) => match externalEventTmp
+                                    .origin
+                                    .as_ref()
+                                    .and_then(|origin| origin.strip_prefix(SCXML_TARGET_SESSION_ID_PREFIX))
+                                {
+                                    Some(origin_session) => origin_session == session.session_id.to_string(),
+                                    None => true,
+                                },
+                                None => false,
+                            };
+                            if from_running_child {
                                 externalEvent = externalEventTmp;
                                 break;
                             } else {
